@@ -17,9 +17,10 @@ import (
 // direct oracles on the real code (no Lean model of the gob container; see checks/C18.json).
 
 type v1Store struct {
-	dir string
-	ks  *filesystem.KeyStore
-	enc keystore.KeyEncryptor
+	dir     string
+	spelled string // the directory as given to the key store and the backuper ("" = dir)
+	ks      *filesystem.KeyStore
+	enc     keystore.KeyEncryptor
 }
 
 func newV1Store(master string) *v1Store {
@@ -42,7 +43,11 @@ func newV1Store(master string) *v1Store {
 func (s *v1Store) close() { os.RemoveAll(filepath.Dir(s.dir)) }
 
 func (s *v1Store) backuper() *filesystem.KeyBackuper {
-	b, err := filesystem.NewKeyBackuper(s.dir, "", &filesystem.DummyStorage{}, s.enc, s.ks)
+	dir := s.dir
+	if s.spelled != "" {
+		dir = s.spelled
+	}
+	b, err := filesystem.NewKeyBackuper(dir, "", &filesystem.DummyStorage{}, s.enc, s.ks)
 	if err != nil {
 		panic("harness: " + err.Error())
 	}
